@@ -404,6 +404,17 @@ where
 
                 this.waiter.close();
                 this.inner.set(InnerCheckoutConnecting::Connected);
+
+                if connection.can_share() {
+                    // The pool kept its own handle when this one was checked out,
+                    // there is nothing to register or to return.
+                    return Poll::Ready(Ok(Pooled {
+                        connection: Some(connection),
+                        token: Token::zero(),
+                        pool: PoolRef::none(),
+                    }));
+                }
+
                 Poll::Ready(Ok(register_connected(this.pool, *this.token, connection)))
             }
             CheckoutConnectingProj::Connecting(connector) => {
